@@ -654,3 +654,122 @@ Example dup_witness :
   (bs <- serialize E2 dup_struct ;; de_as_value true bs) = Ok (norm dup_struct) /\
   (bs <- serialize E1 dup_struct ;; de_as_value true bs) = Ok (norm dup_struct).
 Proof. repeat split; vm_compute; reflexivity. Qed.
+
+(* ---------- whatever the wire bytes: a decoded value has no key twice, at any level ---------- *)
+Fixpoint nodups (v : Value) : bool :=
+  match v with
+  | VSome x | VEnum _ x => nodups x
+  | VVec l => forallb nodups l
+  | VMap _ l => keys_nodup (map fst l) && forallb (fun p => nodups (snd p)) l
+  | VSet _ l => keys_nodup l
+  | VStruct l => ids_nodup (map fst l) && forallb (fun p => nodups (snd p)) l
+  | _ => true
+  end.
+
+Definition good {A} (Q : A -> bool) (w : list N -> result (A * list N)) : Prop :=
+  forall b x r, w b = Ok (x, r) -> Q x = true.
+
+Lemma good_loop1 {A} (Q : A -> bool) (elem : list N -> result (A * list N)) :
+  good Q elem -> forall n cnt, good (forallb Q) (loop1 elem n cnt).
+Proof.
+  intros He. induction n as [|n IH]; intros cnt b xs r; cbn [loop1]; destruct (cnt =? 0);
+    try (intros H; ok_inv H; inversion H; reflexivity); try discriminate.
+  intros H. bind_ok H p E. destruct p as [x r1]. bind_ok H q F2. destruct q as [ys r2].
+  apply Ok_inj in H. inversion H; subst. cbn [forallb]. rewrite (He _ _ _ E), (IH _ _ _ _ F2). reflexivity.
+Qed.
+
+Lemma good_loop2 {A} (Q : A -> bool) (elem : list N -> result (A * list N)) :
+  good Q elem -> forall n, good (forallb Q) (loop2 elem n).
+Proof.
+  intros He. induction n as [|n IH]; intros b xs r; cbn [loop2]; [discriminate|].
+  destruct b as [|k b]; [discriminate|]. destruct (kind_of_byte k) as [[]|]; try discriminate.
+  - intros H. apply Ok_inj in H. inversion H; reflexivity.
+  - intros H. bind_ok H p E. destruct p as [x r1]. bind_ok H q F2. destruct q as [ys r2].
+    apply Ok_inj in H. inversion H; subst. cbn [forallb]. rewrite (He _ _ _ E), (IH _ _ _ F2). reflexivity.
+Qed.
+
+Lemma good_map_elem utf8 kk rec : good nodups rec ->
+  good (fun p : keyv * Value => nodups (snd p)) (map_elem utf8 kk rec).
+Proof.
+  intros Hr b [k v] r. unfold map_elem. intros H. bind_ok H p E. destruct p as [key r1].
+  bind_ok H q F2. destruct q as [v' r2]. apply Ok_inj in H. inversion H; subst. cbn [snd].
+  eapply Hr; eauto.
+Qed.
+
+Lemma good_field_elem rec : good nodups rec ->
+  good (fun p : N * Value => nodups (snd p)) (field_elem rec).
+Proof.
+  intros Hr b [k v] r. unfold field_elem. intros H. bind_ok H p E. destruct p as [id r1].
+  bind_ok H q F2. destruct q as [v' r2]. apply Ok_inj in H. inversion H; subst. cbn [snd].
+  eapply Hr; eauto.
+Qed.
+
+Lemma nodups_map kk xs : forallb (fun p : keyv * Value => nodups (snd p)) xs = true ->
+  nodups (VMap kk (dedup_map xs)) = true.
+Proof.
+  intros H. cbn [nodups]. rewrite (proj1 (dedup_map_spec xs)). cbn [andb].
+  apply (forallb_ded key_eqb _ xs []); [reflexivity|exact H].
+Qed.
+
+Lemma nodups_struct xs : forallb (fun p : N * Value => nodups (snd p)) xs = true ->
+  nodups (VStruct (dedup_struct xs)) = true.
+Proof.
+  intros H. cbn [nodups]. rewrite (proj1 (dedup_struct_spec xs)). cbn [andb].
+  apply (forallb_ded N.eqb _ xs []); [reflexivity|exact H].
+Qed.
+
+Lemma good_de_body utf8 (rec : walker Value) n :
+  (forall d, good nodups (rec d)) -> forall d, good nodups (de_body utf8 rec n d).
+Proof.
+  intros Hr d b v r. unfold de_body, de_kind. destruct (_ <? _)%nat; [discriminate|].
+  destruct b as [|k b]; [discriminate|]. destruct (kind_of_byte k) as [kd|]; [|discriminate].
+  destruct kd as [| | |i|f| |e|e|e kk|e kk|e|].
+  - intros H. ok_inv H. inversion H. reflexivity.
+  - intros H. bind_ok H p E. destruct p as [x r']. ok_inv H. inversion H; subst. cbn [nodups].
+    eapply Hr; eauto.
+  - destruct b; [discriminate|]. intros H. ok_inv H. inversion H. reflexivity.
+  - intros H. bind_ok H p E. destruct p as [z r']. ok_inv H. inversion H. reflexivity.
+  - intros H. bind_ok H p E. destruct p as [bs r']. ok_inv H. inversion H. reflexivity.
+  - intros H. bind_ok H p E. destruct p as [len r1]. bind_ok H q F2. destruct q as [s r2].
+    destruct (_ || _); [|discriminate]. ok_inv H. inversion H. reflexivity.
+  - destruct e.
+    + intros H. bind_ok H p E. destruct p as [cnt r1]. bind_ok H q F2. destruct q as [xs r2].
+      ok_inv H. inversion H; subst. cbn [nodups]. eapply good_loop1; [apply Hr|exact F2].
+    + intros H. bind_ok H q F2. destruct q as [xs r2].
+      ok_inv H. inversion H; subst. cbn [nodups]. eapply good_loop2; [apply Hr|exact F2].
+  - destruct e.
+    + intros H. bind_ok H p E. destruct p as [cnt r1]. destruct (take cnt r1) as [[bs r2]|]; [|discriminate].
+      ok_inv H. inversion H. reflexivity.
+    + intros H. bind_ok H p E. destruct p as [len r1]. bind_ok H q F2. destruct q as [bs r2].
+      ok_inv H. inversion H. reflexivity.
+  - destruct e.
+    + intros H. bind_ok H p E. destruct p as [cnt r1]. bind_ok H q F2. destruct q as [xs r2].
+      ok_inv H. inversion H; subst. apply nodups_map.
+      eapply good_loop1; [apply good_map_elem, Hr|exact F2].
+    + intros H. bind_ok H q F2. destruct q as [xs r2].
+      ok_inv H. inversion H; subst. apply nodups_map.
+      eapply good_loop2; [apply good_map_elem, Hr|exact F2].
+  - destruct e.
+    + intros H. bind_ok H p E. destruct p as [cnt r1]. bind_ok H q F2. destruct q as [xs r2].
+      ok_inv H. inversion H; subst. cbn [nodups]. apply (proj1 (dedup_set_spec xs)).
+    + intros H. bind_ok H q F2. destruct q as [xs r2].
+      ok_inv H. inversion H; subst. cbn [nodups]. apply (proj1 (dedup_set_spec xs)).
+  - destruct e.
+    + intros H. bind_ok H p E. destruct p as [cnt r1]. bind_ok H q F2. destruct q as [xs r2].
+      ok_inv H. inversion H; subst. apply nodups_struct.
+      eapply good_loop1; [apply good_field_elem, Hr|exact F2].
+    + intros H. bind_ok H q F2. destruct q as [xs r2].
+      ok_inv H. inversion H; subst. apply nodups_struct.
+      eapply good_loop2; [apply good_field_elem, Hr|exact F2].
+  - intros H. bind_ok H p E. destruct p as [id r1]. bind_ok H q F2. destruct q as [x r2].
+    ok_inv H. inversion H; subst. cbn [nodups]. eapply Hr; eauto.
+Qed.
+
+Theorem de_nodups utf8 : forall f d, good nodups (de utf8 f d).
+Proof.
+  induction f as [|f IH]; intros d; cbn [de]; [intros b v r; discriminate|].
+  apply good_de_body. exact IH.
+Qed.
+
+Corollary decoded_no_duplicates utf8 b v r : de_value utf8 b = Ok (v, r) -> nodups v = true.
+Proof. unfold de_value. apply de_nodups. Qed.
